@@ -160,7 +160,9 @@ func nameWF(e string) bool {
 	return true
 }
 
-func in(s string) map[string]any { return map[string]any{"s": vh.Hex([]byte(s)), "text": fmt.Sprintf("%q", s)} }
+func in(s string) map[string]any {
+	return map[string]any{"s": vh.Hex([]byte(s)), "text": fmt.Sprintf("%q", s)}
+}
 
 // oracle evaluates the property itself on the real functions for source string s.
 // withParser additionally pushes the written forms through model.ParseObject.
@@ -321,6 +323,139 @@ func mutate(t string) string {
 	return string(b)
 }
 
+// ---- prefix / alignment dependent inputs (byte-order marks, UTF-16 units) ----
+
+var boms = []string{"\xfe\xff", "\xff\xfe", "\xef\xbb\xbf"}
+
+// significant bytes for tails: escapes, parentheses, EOLs, digits, name delimiters
+var sig = []byte{'\\', '(', ')', '\r', '\n', '\t', '\b', '\f', '0', '1', '7', '8', '9', '#', '/', '%', '<', '>', '[', ']', '{', '}', 0, ' ', 'n', 'q', 0x7f, 0xfe, 0xff}
+
+// code points whose UTF-16 units contain 5C / 28 / 29 / 0D / 0A / 23 / 2F as high or low byte
+var units = []uint16{0x5c71, 0x715c, 0x2800, 0x0028, 0x0129, 0x2901, 0x5c28, 0x285c, 0x5c5c, 0x2929, 0x2828, 0x0d0a, 0x0a0d, 0x0d00, 0x000d,
+	0x2300, 0x0023, 0x2f2f, 0x2500, 0x3030, 0x5c30, 0x305c, 0x0429, 0x0428, 0x045c, 0x4e28, 0x4e5c, 0x5c4e, 0x5c0d, 0x5c0a, 0x0041, 0x4100, 0xfeff, 0xfffe}
+
+// alignedTail: n bytes; significant bytes are placed preferably at offsets of parity par
+// (0 even, 1 odd, 2 anywhere), the other positions get non-zero filler or zero.
+func alignedTail(n, par int) []byte {
+	b := make([]byte, n)
+	zeroFill := r.Rand.Intn(3) == 0
+	for i := range b {
+		if par == 2 || i%2 == par || r.Rand.Intn(8) == 0 {
+			if r.Rand.Intn(4) != 0 {
+				b[i] = sig[r.Rand.Intn(len(sig))]
+				continue
+			}
+		}
+		if zeroFill {
+			b[i] = 0
+		} else {
+			b[i] = byte(1 + r.Rand.Intn(255))
+		}
+	}
+	return b
+}
+
+func utf16Text(n int, le bool) []byte {
+	b := make([]byte, 0, 2*n)
+	for i := 0; i < n; i++ {
+		var u uint16
+		switch r.Rand.Intn(4) {
+		case 0: // Cyrillic
+			u = uint16(0x0400 + r.Rand.Intn(0x100))
+		case 1: // CJK
+			u = uint16(0x4e00 + r.Rand.Intn(0x5200))
+		default:
+			u = units[r.Rand.Intn(len(units))]
+		}
+		if le {
+			b = append(b, byte(u), byte(u>>8))
+		} else {
+			b = append(b, byte(u>>8), byte(u))
+		}
+	}
+	return b
+}
+
+// full sends one source string through K (both directions) and O.
+func full(s string, withParser bool) {
+	forward(s)
+	backward(s)
+	oracle(s, withParser)
+}
+
+func bomInputs() {
+	all := make([]byte, 256)
+	for i := range all {
+		all[i] = byte(i)
+	}
+	// (a) BOM ++ x, x exhaustive up to 2 bytes (65793 strings per BOM)
+	for bi, bom := range boms {
+		for n := 0; n <= 2; n++ {
+			words(all, n, func(x string) {
+				s := bom + x
+				oracle(s, n <= 1)
+				if bi < 2 || r.Thorough() || n <= 1 {
+					forward(s)
+				}
+				if r.Thorough() || n <= 1 || r.Rand.Intn(8) == 0 {
+					backward(s)
+				}
+			})
+			r.CountN(fmt.Sprintf("bom%d+exhaustive-len:%d", bi, n), 1<<(8*n))
+		}
+		// every unit from the table, alone and doubled, big and little endian
+		for _, u := range units {
+			for _, v := range units {
+				full(bom+string([]byte{byte(u >> 8), byte(u), byte(v >> 8), byte(v)}), false)
+				full(bom+string([]byte{byte(u), byte(u >> 8), byte(v), byte(v >> 8)}), false)
+			}
+		}
+	}
+	// (b) BOM ++ random even/odd-length tails with the significant bytes at even / odd / any offsets,
+	// (c) BOM ++ UTF-16 text (CJK, Cyrillic, units containing 5C/28/29/0D/0A), BE and LE,
+	// (d) the same with the BOM in the middle of the string
+	nTail := r.Pick(6000, 60000)
+	for i := 0; i < nTail; i++ {
+		bom := boms[r.Rand.Intn(len(boms))]
+		var tail []byte
+		kind := r.Rand.Intn(5)
+		switch kind {
+		case 0, 1, 2:
+			n := r.Rand.Intn(24)
+			if i%20 == 0 {
+				n = r.Rand.Intn(600)
+			}
+			tail = alignedTail(n, kind)
+			r.Count(fmt.Sprintf("bom-tail:parity%d-len%%2=%d", kind, n%2))
+		case 3:
+			tail = utf16Text(1+r.Rand.Intn(12), bom == "\xff\xfe")
+			r.Count("bom-tail:utf16")
+		default:
+			tail = utf16Text(1+r.Rand.Intn(12), bom == "\xff\xfe")
+			if r.Rand.Intn(2) == 0 { // odd number of bytes: dangling half unit
+				tail = append(tail, sig[r.Rand.Intn(len(sig))])
+			}
+			r.Count("bom-tail:utf16+half")
+		}
+		s := bom + string(tail)
+		if i%3 == 0 { // BOM in the middle, at an even or odd offset
+			pre := alignedTail(r.Rand.Intn(7), 2)
+			s = string(pre) + s
+			r.Count(fmt.Sprintf("bom-middle:offset%%2=%d", len(pre)%2))
+		}
+		full(s, true)
+		if i%4 == 0 {
+			e, _ := callEscape(s)
+			n, _ := callEncodeName(s)
+			backward(e)
+			backward(n)
+			backward(mutate(e))
+			backward(mutate(n))
+			parseCase("(" + e + ")" + tails[r.Rand.Intn(len(tails))])
+		}
+	}
+}
+
 func classify(s string) {
 	switch {
 	case strings.Contains(s, "\r\n"):
@@ -408,7 +543,10 @@ func main() {
 		r.CountN("len:3-sampled", 20000)
 	}
 
-	// 4. random long strings, both directions, and damaged encoder outputs
+	// 4. prefix / alignment dependent inputs
+	bomInputs()
+
+	// 5. random long strings, both directions, and damaged encoder outputs
 	nLong := r.Pick(3000, 40000)
 	for i := 0; i < nLong; i++ {
 		maxLen := 40
@@ -416,6 +554,9 @@ func main() {
 			maxLen = 2000
 		}
 		s := randString(maxLen)
+		if i%7 == 0 {
+			s = boms[r.Rand.Intn(len(boms))] + s
+		}
 		classify(s)
 		forward(s)
 		oracle(s, true)
